@@ -8,6 +8,7 @@
 (*   readers :  Load (one atomic load of the cell) -> snapshot             *)
 (*   updaters:  Acquire -> Read (current map) -> Store (current + region)  *)
 (*              -> Release            (store and release are separate steps)*)
+(*              or Abort: the updater dies holding the lock (poisoning)    *)
 (* Negative configurations: ReleaseFirst (the mutex is released before the *)
 (* store) and NoMutex (Acquire does not exclude) must violate NoLostUpdate.*)
 (***************************************************************************)
@@ -48,8 +49,16 @@ Release(u) == /\ pc[u] = (IF ReleaseFirst THEN "read" ELSE "stored")
               /\ pc' = [pc EXCEPT ![u] = IF ReleaseFirst THEN "released" ELSE "idle"]
               /\ UNCHANGED <<cell, local, cnt, snap, published, added>>
 
+\* an updater dies (panics) while it holds the lock, before storing anything: unwinding releases the (now poisoned)
+\* mutex; lock() keeps handing out the guard to later updaters (LockResult::Err carries it)
+Abort(u) == /\ pc[u] \in {"locked", "read"} /\ ~ReleaseFirst
+            /\ holder' = (IF holder = u THEN 0 ELSE holder)
+            /\ cnt' = [cnt EXCEPT ![u] = cnt[u] + 1]
+            /\ pc' = [pc EXCEPT ![u] = "idle"]
+            /\ UNCHANGED <<cell, local, snap, published, added>>
+
 Next == \/ \E r \in Readers : Load(r)
-        \/ \E u \in Updaters : Acquire(u) \/ Read(u) \/ Store(u) \/ Release(u)
+        \/ \E u \in Updaters : Acquire(u) \/ Read(u) \/ Store(u) \/ Release(u) \/ Abort(u)
 Spec == Init /\ [][Next]_vars
 
 \* ---- C11 ------------------------------------------------------------------
